@@ -575,3 +575,21 @@ def gen_c19(tier, seed):
         d["gcost"] = rng.choice([0, 3, 10 * q])
         out.append(line(d))
     return out
+
+
+def gen_c11_e2e(tier, seed):
+    """C11 end to end: the frequency reaches the conversion through Timer::get_tsc, the readings through a real sample loop."""
+    rng = random.Random(seed * 1103 + 11)
+    out = []
+    freqs = [1, 2, 7, 499, 500, 501, 999, 1000, 1499, 32768, 10 ** 6 + 1, 999_999_999, 10 ** 9, 2_999_999_999, 10 ** 12 - 1, 10 ** 12,
+             2 ** 32 + 1, 2 ** 63, 2 ** 64 - 1]
+    N = 60 if tier == "quick" else 2000
+    for idx in range(N):
+        f = freqs[idx % len(freqs)] if idx < 2 * len(freqs) else rng.choice(freqs + [rng.randrange(1, 10 ** rng.randrange(1, 19))])
+        d = {"id": idx, "entry": rng.choice([0, 0, 1, 2]), "T": rng.choice([1, 1, 2]), "s": rng.choice([1, 3]), "n": rng.choice([2, 3, 5]),
+             "freq": f, "delta": 1, "q": 1, "cbase": rng.choice([1, 1000, 10 ** 5, 10 ** 6, 2 ** 33, 2 ** 40]), "cstep": rng.choice([0, 1, 977]),
+             "cmod": rng.choice([1, 3, 7]), "seed": rng.randrange(1 << 20), "fplog": 0, "oshape": "z"}
+        if d["entry"] == 2:
+            d["ishape"] = "s"
+        out.append(line(d))
+    return out
